@@ -3,7 +3,7 @@
    [run_plan] executes the emitted nested graphs node by node (the emitted model with names erased: which application
    sits in which graph in which order; the naming layer is C02's).  The statement holds for EVERY operator semantics. *)
 From Coq Require Import List String NArith Arith Bool.
-From Spox Require Import Base IR Show Build Sem Plan Named Validate BuildFacts SemFacts NamedFacts EmitFacts CoverageFacts.
+From Spox Require Import Base IR Show Build Sem Plan Named Validate BuildFacts SemFacts NamedFacts EmitFacts CoverageFacts PlanFacts.
 Import ListNotations.
 
 Theorem C01_build_sem :
@@ -77,3 +77,30 @@ Theorem C01_no_application_is_dropped_by_construction :
       (In u (topo_of (with_main p (Some args) outputs) 0) /\ is_arg (with_main p (Some args) outputs) u = false).
 Proof. exact build_public_emits_exactly. Qed.
 Print Assumptions C01_no_application_is_dropped_by_construction.
+
+(* The plan of a returned model - the emitted model with names erased: which application sits in which graph, in which order, with
+   which nested bodies - IS the ownership map of the scope resolution unfolded along the subgraph attributes, a function
+   [spec_plan_of] of the PROGRAM alone.  By construction (no validator): compile adds nothing, drops nothing, reorders nothing. *)
+Theorem C01_plan_is_the_ownership_map_unfolded :
+  forall ffuel p un main b, build_main ffuel p un main = inl b -> spec_plan_of p main = Some (plan_of_graph p main (b_graph b)).
+Proof. exact build_main_plan. Qed.
+Print Assumptions C01_plan_is_the_ownership_map_unfolded.
+
+(* The semantic theorem WITHOUT a check of the model's output.  Premise ([spec_check], decidable, a function of the program and the
+   request only, evaluated on every generated program that builds): the specification-level plan is a well-formed linearisation
+   (operands defined earlier in the same or an enclosing graph, body arguments local, results defined) of an acyclic program.
+   Then, whatever build_public returns, executing its nested graphs on any values of the inputs yields, for each requested output, the
+   meaning of the requested Var - for EVERY extensional operator semantics. *)
+Theorem C01_build_sem_by_construction :
+  forall p r m inputs outputs,
+  build_public p r = inl m -> all_vars (r_inputs r) = Some inputs -> all_vars (r_outputs r) = Some outputs ->
+  exists args, (r_drop r = false -> args = map snd inputs) /\ (forall a, In a args -> In a (map snd inputs)) /\
+    let p' := with_main p (Some args) outputs in
+    spec_check p' 0 = true ->
+    forall (val : Type) (dv : val) (opsem : nat -> list (option val) -> list (clos val) -> list val),
+    (forall n ivs c1 c2, Forall2 (fun a b => forall av, a av = b av) c1 c2 -> opsem n ivs c1 = opsem n ivs c2) ->
+    forall av,
+    run_plan p' 0 val dv opsem (plan_of_graph p' 0 (mmain m)) av =
+    map (meaning p' 0 val dv opsem (bindv val dv args av)) (map snd outputs).
+Proof. exact build_sem_by_construction. Qed.
+Print Assumptions C01_build_sem_by_construction.
